@@ -308,12 +308,121 @@ theorem assignLoop_spec : ∀ (ts : List (Nat × Nat × Nat)) (tri : Nat) (rest 
         rw [ih, matOfTris_cons]
         congr 3; omega
 
+/-! ### order of the parts -/
+
+def keyStep (acc : List Nat) (x : Nat) : List Nat := if acc.contains x then acc else acc ++ [x]
+
+theorem addToPart_keys (parts : List (Nat × List Nat)) (μ : Nat) (t : Nat × Nat × Nat) :
+    (addToPart parts μ t).map (·.1) = keyStep (parts.map (·.1)) μ := by
+  unfold addToPart keyStep
+  have hany : parts.any (fun p => p.1 == μ) = (parts.map (·.1)).contains μ := by
+    induction parts with
+    | nil => rfl
+    | cons a t ih =>
+      simp only [List.any_cons, List.map_cons, List.contains_cons, ih]
+      congr 1
+      exact Bool.beq_comm
+  rw [hany]
+  split
+  · rw [List.map_map]
+    apply List.map_congr_left
+    intro p _
+    simp only [Function.comp]
+    split <;> rfl
+  · simp
+
+theorem groupFold_keys : ∀ (l : List (Nat × (Nat × Nat × Nat))) (parts : List (Nat × List Nat)),
+    (groupFold parts l).map (·.1) = (l.map (·.1)).foldl keyStep (parts.map (·.1))
+  | [], parts => rfl
+  | e :: l, parts => by
+    have := groupFold_keys l (addToPart parts e.1 e.2)
+    simp only [groupFold, List.foldl_cons, List.map_cons] at this ⊢
+    rw [this, addToPart_keys]
+
+theorem zip_map_fst : ∀ (a : List Nat) (T : List (Nat × Nat × Nat)), a.length = T.length → (a.zip T).map (·.1) = a
+  | [], _, _ => by simp
+  | _ :: _, [], h => by simp at h
+  | x :: a, t :: T, h => by simp [zip_map_fst a T (by simpa using h)]
+
+theorem dedupNat_cons (x : Nat) (l : List Nat) : dedupNat (x :: l) = l.foldl keyStep [x] := rfl
+
 /-- the loop assigns triangle `j` the material of the range that covers `j` when the ranges are
     written out one after another -/
 theorem assignLoop_eq_take {ms : List MatRange} {T : List (Nat × Nat × Nat)} {assign : List Nat}
     (h : assignLoop T 0 ms 0 = some assign) : assign = (matOfTris ms).take T.length := by
   have := assignLoop_spec T 0 ms 0 assign h (Nat.le_refl _)
   simpa using this
+
+/-- **the whole split contract** -/
+theorem split_spec [DecidableEq α] {m : MeshVal α} {parts : List (MeshVal α)} (h : WF m)
+    (hs : m.splitOnMaterials = some parts) : SplitSpec m parts := by
+  unfold SplitSpec
+  split
+  · rename_i hlt
+    have hsingle : m.splitOnMaterials = some [m] := by
+      unfold splitOnMaterials
+      cases hm : m.materials with
+      | nil => rfl
+      | cons a t =>
+        cases t with
+        | nil => rfl
+        | cons b t' => rw [hm] at hlt; simp at hlt; omega
+    rw [hsingle] at hs
+    cases hs; rfl
+  · rename_i hge
+    unfold splitOnMaterials at hs
+    split at hs
+    · rename_i hm; rw [hm] at hge; simp at hge
+    · rename_i hm; rw [hm] at hge; simp at hge
+    · rename_i _ r0 _ _ hmeq
+      split at hs
+      case isFalse => cases hs
+      case isTrue ht =>
+        rw [splitLoop_eq] at hs
+        simp only [Option.map_map, Option.map_eq_some_iff] at hs
+        obtain ⟨assign, hassign, hparts⟩ := hs
+        have hlen := assignLoop_length _ _ _ _ _ hassign
+        have hassign_eq := assignLoop_eq_take hassign
+        have hinv : GroupInv (groupFold [(r0.mat, [])] (assign.zip (triples m.indices))) (assign.zip (triples m.indices)) := by
+          have := groupFold_inv (assign.zip (triples m.indices)) [(r0.mat, [])] []
+            ⟨by intro q hq; simp at hq; subst hq; simp [sel, untriples], by simp⟩
+          simpa using this
+        have hpart : ∀ q ∈ groupFold [(r0.mat, [])] (assign.zip (triples m.indices)),
+            PartSpec m assign (((m.setIndices q.2).setMaterial q.1).removeUnreferenced) q.1 := by
+          intro q hq
+          have hq2 : q.2 = keepAt (assign.flatMap fun ν => List.replicate 3 (ν == q.1)) m.indices := by
+            rw [hinv.1 q hq, sel_eq_keepAt q.1 m.indices assign hlen]
+          have hq2len : q.2.length = 3 * (assign.filter (· == q.1)).length := by
+            rw [hinv.1 q hq, sel, length_untriples, List.length_map, zip_filter_length q.1 assign _ hlen]
+          have hwf : WF ((m.setIndices q.2).setMaterial q.1) := by
+            apply setMaterial_wf
+            rw [hq2]
+            apply setIndices_keepAt_wf h
+            rw [← hq2, ht]; show q.2.length % 3 = 0; omega
+          refine ⟨rfl, ?_, ?_⟩
+          · show [MatRange.mk ((m.setIndices q.2).indices.length / (m.setIndices q.2).topology.indexSize) q.1] = _
+            have : (m.setIndices q.2).topology.indexSize = 3 := by show m.topology.indexSize = 3; rw [ht]; rfl
+            rw [this]; show [MatRange.mk (q.2.length / 3) q.1] = _
+            rw [hq2len]; congr 2; omega
+          · rw [removeUnreferenced_corners hwf]
+            show (if q.2 = [] then [] else (m.setIndices q.2).corners) = _
+            rw [hq2, setIndices_keepAt_corners]
+        -- the order of the parts
+        have hkeys : (groupFold [(r0.mat, [])] (assign.zip (triples m.indices))).map (·.1) =
+            dedupNat ((m.materials.map (·.mat)).take 1 ++ assign) := by
+          rw [groupFold_keys, zip_map_fst assign _ hlen]
+          have : (m.materials.map (·.mat)).take 1 = [r0.mat] := by rw [hmeq]; simp
+          rw [this]
+          show assign.foldl keyStep [r0.mat] = dedupNat (r0.mat :: assign)
+          rw [dedupNat_cons]
+        have hpe : parts = (groupFold [(r0.mat, [])] (assign.zip (triples m.indices))).map
+            (fun q => ((m.setIndices q.2).setMaterial q.1).removeUnreferenced) := hparts.symm
+        rw [← hassign_eq, ← hkeys, hpe]
+        refine ⟨hlen, by simp, ?_⟩
+        intro pm hpm
+        rw [List.zip_map'] at hpm
+        obtain ⟨q, hq, rfl⟩ := List.mem_map.mp hpm
+        exact hpart q hq
 
 end MeshVal
 end PolyVerif.Mesh
